@@ -24,7 +24,7 @@ def status():
         pid = f"C{i:02d}"
         cfg = props.PROPS.get(pid)
         pf = os.path.join(ROOT, "lean", "M3d", "Props", pid + ".lean")
-        nth = len(re.findall(r"^theorem ", open(pf).read(), re.M)) if os.path.exists(pf) else 0
+        nth = len(re.findall(r"^(?:@\[[^\]]*\]\s*)?theorem ", open(pf).read(), re.M)) if os.path.exists(pf) else 0
         ev = os.path.join(ROOT, "evidence", pid + ".json")
         cases = wall = dist = ""
         if os.path.exists(ev):
@@ -72,9 +72,31 @@ def seeded():
     return "\n".join(rows)
 
 
+def ties():
+    """Tie modules (theorems that relate REGENERATED definitions of Gen/*.lean to the hand-written models)."""
+    rows = ["| prop | regenerated (Gen) | tie modules: theorems |", "|---|---|---|"]
+    for i in range(1, 21):
+        pid = f"C{i:02d}"
+        cfg = props.PROPS.get(pid) or {}
+        mods = []
+        for m in cfg.get("tie_modules", []):
+            f = os.path.join(ROOT, "lean", *m.split(".")) + ".lean"
+            n = len(re.findall(r"^(?:@\[[^\]]*\]\s*)?theorem ", open(f).read(), re.M)) if os.path.exists(f) else 0
+            mods.append(f"`{m.split('.')[-1]}`: {n}")
+        rows.append(f"| {pid} | {', '.join(cfg.get('gen', [])) or '-'} | {', '.join(mods) or '-'} |")
+    return "\n".join(rows)
+
+
 def main():
     p = os.path.join(ROOT, "DESIGN.md")
     t = open(p).read()
+    if "<!-- BEGIN:TIES -->" not in t:
+        anchor = "* **Translation validation** (so that the translator is not simply trusted)"
+        i = t.index(anchor)
+        t = t[:i] + ("* **Tie modules as built** (rewritten by `tools/mk_design_tables.py`; every theorem below is an obligation of the\n"
+                     "  property's check, audited with `#print axioms` like the property theorems):\n\n"
+                     "<!-- BEGIN:TIES -->\n<!-- END:TIES -->\n\n") + t[i:]
+    t = block(t, "TIES", ties())
     t = block(t, "STATUS", status())
     t = block(t, "FIXED", fixed())
     t = block(t, "SEEDED", seeded())
